@@ -597,6 +597,7 @@ func rulePayloadProvenance(c *Ctx, rule string) {
 	// reply: Body.Data = Materialize(Marshal(resp)), resp = result 0 of the handler call
 	renv := p.envelopeIn("goat.handler.processUnaryRpc")
 	okRep, whyRep := false, "reply Body is not a local Body{Data: Materialize(Marshal(handler result))}"
+	nRep, badRep := 0, ""
 	for _, t := range renv.Fields["Body"].Origins {
 		if t.Op != "alloc" {
 			continue
@@ -604,7 +605,11 @@ func rulePayloadProvenance(c *Ctx, rule string) {
 		if al, ok := e.allocs[t.Name].(*ssa.Alloc); ok {
 			for _, s := range p.allocFieldStores(al, "Data") {
 				d := e.Of(s.Val)
+				nRep++
 				okRep, whyRep = d.AllMatch("call(*Materialize,call(*Marshal#0,_,_))")
+				if !okRep && badRep == "" {
+					badRep = whyRep + " — the reply must be an owned copy (Materialize) of the marshalled handler result; aliasing codec buffers or altering the bytes corrupts replies under concurrency"
+				}
 				// the value marshalled is result 0 of the handler invocation (nil alternatives are excluded by the
 				// `resp != nil` guard checked in C06.8)
 				if cl, isCall := s.Val.(*ssa.Call); okRep && isCall {
@@ -630,7 +635,14 @@ func rulePayloadProvenance(c *Ctx, rule string) {
 			}
 		}
 	}
-	c.check(rule, "processUnaryRpc:reply-body", okRep, whyRep, p.ipos(renv.Alloc))
+	if badRep != "" {
+		okRep, whyRep = false, badRep
+	}
+	c.check(rule, "processUnaryRpc:reply-body", okRep && nRep > 0, whyRep, p.ipos(renv.Alloc))
+	// the codec's buffers are not released while the reply may still reference them
+	for _, ci := range p.callsTo(pu, "BufferSlice).Free", true) {
+		c.check(rule, "processUnaryRpc:no-buffer-release", false, "the marshalled buffers are handed back to the shared pool inside processUnaryRpc, before the reply envelope has been written", p.ipos(ci.(ssa.Instruction)))
+	}
 	// client: success result of CallUnaryMethod is the Body of the envelope received on the registered channel
 	okRes, whyRes := true, ""
 	n := 0
